@@ -274,6 +274,9 @@ func body(engine string, names []string) func(c *drv.Ctx) {
 					cf["eventCallbackName"] = "verif-c11-merge-hold"
 				}
 				idx, err = bleve.NewUsing(c.Dir+"/idx", m, scorch.Name, scorch.Name, cf)
+			} else if engine == "scorch-unsafe" {
+				// unsafe batches return once introduced: only then can Close overlap the persister's work on them
+				idx, err = bleve.NewUsing(c.Dir+"/idx", m, scorch.Name, scorch.Name, map[string]interface{}{"unsafe_batch": true})
 			} else if engine == "upsidedown-boltdb" {
 				idx, err = bleve.NewUsing(c.Dir+"/idx", m, "upside_down", "boltdb", nil)
 			} else {
@@ -430,6 +433,13 @@ func Scenarios() []drv.Scenario {
 	mk("scorch-persister-waits-for-merger", "index", "batch", "close")
 	mk("scorch-persister-waits-for-held-merger", "index", "search", "close")
 	mk("scorch-persister-waits-for-merger", "forcemerge", "index", "close")
+	// unsafe batches: Close overlaps persisting (and merging) of batches whose calls have already returned
+	mk("scorch-unsafe", "index", "close")
+	out[len(out)-1].Quick = []drv.Phase{{Bound: 1}}
+	mk("scorch-unsafe", "index", "batch", "close")
+	mk("scorch-unsafe", "index", "search", "close")
+	mk("scorch-unsafe", "batch", "forcemerge", "close")
+	mk("scorch-unsafe", "delete", "copyto", "close")
 	// an index alias (index_alias_impl.go): searches fan out to the members on their own goroutines while
 	// the member set is swapped, a member is closed, or the alias itself is closed
 	mk("alias", "search", "alias-swap", "close")
